@@ -9,3 +9,17 @@ pub use crate::auth::{JwtClaims, Privileges, pattern_matches};
 pub use crate::store::{AffectedLsSubscribers, Node, Store, StoreError, StoreNode, verif_lock::VerifLock};
 pub use crate::subscribers::{EventSender, LsSubscriber, Subscriber, Subscribers};
 pub use crate::worterbuch::{Worterbuch, verif_check_for_read_only_key as check_for_read_only_key};
+pub use crate::server::common::protocol::Proto;
+
+/// Run the core task (the loop body the server runs for every API call) for `worterbuch` on the current
+/// runtime and return the API handle the protocol handlers talk to.
+pub fn spawn_core(mut worterbuch: Worterbuch, config: crate::Config) -> crate::server::CloneableWbApi {
+    let (api_tx, mut api_rx) = tokio::sync::mpsc::channel(config.channel_buffer_size);
+    let api = crate::server::CloneableWbApi::new(api_tx, config);
+    tokio::spawn(async move {
+        while let Some(function) = api_rx.recv().await {
+            crate::process_api_call(&mut worterbuch, function).await;
+        }
+    });
+    api
+}
